@@ -259,18 +259,20 @@ func (m *l1Metrics) Stop() error { return nil }
 type l1Source struct {
 	queue []uint64
 	next  uint64
-	drawn int
+	drawn []uint64
 }
 
 func (s *l1Source) Uint64() uint64 {
-	s.drawn++
+	var v uint64
 	if len(s.queue) > 0 {
-		v := s.queue[0]
+		v = s.queue[0]
 		s.queue = s.queue[1:]
-		return v
+	} else {
+		s.next++
+		v = s.next
 	}
-	s.next++
-	return s.next
+	s.drawn = append(s.drawn, v)
+	return v
 }
 func (s *l1Source) Int63() int64    { return int64(s.Uint64() >> 1) }
 func (s *l1Source) Seed(seed int64) {}
@@ -298,6 +300,7 @@ type l1Event struct {
 }
 
 type l1World struct {
+	intern *l1Intern
 	cfg   l1Cfg
 	srv   *l1Bess
 	gs    *grpc.Server
@@ -314,7 +317,7 @@ type l1World struct {
 var l1Epoch = time.Date(2022, 1, 2, 3, 4, 5, 0, time.UTC)
 
 func l1NewWorld(cfg l1Cfg) (*l1World, error) {
-	w := &l1World{cfg: cfg}
+	w := &l1World{cfg: cfg, intern: &l1Intern{ids: map[string]int{}}}
 	w.srv = &l1Bess{tables: map[string]map[string]l1Cmd{}}
 	lis, err := net.Listen("tcp", "127.0.0.1:0")
 	if err != nil {
@@ -648,6 +651,20 @@ func (w *l1World) dumpPools() map[string]interface{} {
 		pf[fmt.Sprint(i)] = t
 	}
 	o["pfds"] = pf
+	pi := map[string]interface{}{}
+	for i, c := range w.conns {
+		rows := [][]interface{}{}
+		for id, a := range c.appPFDs {
+			fl := []int{}
+			for _, f := range a.flowDescs {
+				fl = append(fl, w.intern.id("flow:"+f))
+			}
+			rows = append(rows, []interface{}{w.intern.id("app:" + id), fl})
+		}
+		sort.Slice(rows, func(a, b int) bool { return rows[a][0].(int) < rows[b][0].(int) })
+		pi[fmt.Sprint(i)] = rows
+	}
+	o["pfd_ids"] = pi
 	return o
 }
 
@@ -719,9 +736,14 @@ func (w *l1World) doEvent(ev l1Event) (obs map[string]interface{}) {
 			case <-time.After(8 * time.Second):
 				obs["blocked"] = true
 			}
-			obs["draws_used"] = src.drawn
-			src.drawn = 0
+			if src.drawn == nil {
+				src.drawn = []uint64{}
+			}
+			obs["draws"] = src.drawn
+			src.drawn = nil
 			src.queue = nil
+			obs["sem"] = l1Sem(raw, w.intern)
+			obs["connected"] = w.u.isConnected()
 		case "report":
 			if c, ok := w.conns[ev.Conn]; ok {
 				c.handleDigestReport(ev.Fseid)
@@ -866,3 +888,332 @@ func init() {
 }
 
 var _ = anypb.New
+
+// ---------------------------------------------------------------------------------------------
+// semantic view of a datagram: for every IE a handler reads, the outcome of the accessor it calls.
+// This is the input of the Coq model (Model/Agent.v: msg); strings are interned per history.
+
+type l1Intern struct{ ids map[string]int }
+
+func (t *l1Intern) id(s string) int {
+	if s == "" {
+		return 0
+	}
+	if v, ok := t.ids[s]; ok {
+		return v
+	}
+	v := len(t.ids) + 1
+	t.ids[s] = v
+	return v
+}
+
+func l1Acc(err error, v interface{}) interface{} {
+	if err != nil {
+		return "err"
+	}
+	return map[string]interface{}{"ok": v}
+}
+
+func l1V4(ip net.IP) interface{} {
+	if len(ip) == 4 {
+		return binary.BigEndian.Uint32(ip)
+	}
+	if len(ip) == 16 {
+		return binary.BigEndian.Uint32(ip[12:16])
+	}
+	return nil
+}
+
+// symbolic parse of a flow description: "assigned" stays a marker (found by parsing twice with
+// two different UE addresses)
+func l1Flow(text string) interface{} {
+	defer func() { _ = recover() }()
+	a, errA := parseFlowDesc(text, "250.251.252.253")
+	b, errB := parseFlowDesc(text, "250.251.252.254")
+	if errA != nil || errB != nil {
+		return "err"
+	}
+	ep := func(x, y endpoint) interface{} {
+		assigned := ip2int(x.IPNet.IP) != ip2int(y.IPNet.IP)
+		return []interface{}{assigned, ip2int(x.IPNet.IP), ipMask2int(x.IPNet.Mask), x.ports.low, x.ports.high}
+	}
+	d := 0
+	if a.direction == "out" {
+		d = 1
+	}
+	return map[string]interface{}{"dir": d, "proto": a.proto, "src": ep(a.src, b.src), "dst": ep(a.dst, b.dst)}
+}
+
+func l1SemPdr(p *ie.IE, t *l1Intern) interface{} {
+	o := map[string]interface{}{}
+	id, err := p.PDRID()
+	o["id"] = l1Acc(err, id)
+	pr, err := p.Precedence()
+	o["prec"] = l1Acc(err, pr)
+	pdi, err := p.PDI()
+	if err != nil {
+		o["pdi"] = "err"
+	} else {
+		els := []interface{}{}
+		for _, x := range pdi {
+			switch x.Type {
+			case ie.UEIPAddress:
+				f, e := x.UEIPAddress()
+				if e != nil {
+					els = append(els, map[string]interface{}{"k": "ueip", "v": "err"})
+				} else {
+					var v4 interface{}
+					if len(f.IPv4Address) == 4 {
+						v4 = binary.BigEndian.Uint32(f.IPv4Address)
+					}
+					els = append(els, map[string]interface{}{"k": "ueip", "v": map[string]interface{}{"ok": []interface{}{f.Flags, v4}}})
+				}
+			case ie.SourceInterface:
+				v, e := x.SourceInterface()
+				els = append(els, map[string]interface{}{"k": "src", "v": l1Acc(e, v)})
+			case ie.FTEID:
+				f, e := x.FTEID()
+				if e != nil {
+					els = append(els, map[string]interface{}{"k": "fteid", "v": "err"})
+				} else {
+					els = append(els, map[string]interface{}{"k": "fteid", "v": map[string]interface{}{"ok": []interface{}{f.HasCh(), f.TEID, l1V4(f.IPv4Address)}}})
+				}
+			case ie.ApplicationID:
+				v, e := x.ApplicationID()
+				els = append(els, map[string]interface{}{"k": "app", "v": l1Acc(e, t.id("app:"+v))})
+			case ie.SDFFilter:
+				f, e := sdfFilterFields(x)
+				if e != nil || f.FlowDescription == "" {
+					els = append(els, map[string]interface{}{"k": "sdf", "v": "err"})
+				} else {
+					els = append(els, map[string]interface{}{"k": "sdf", "v": map[string]interface{}{"ok": l1Flow(f.FlowDescription)}})
+				}
+			default:
+				els = append(els, map[string]interface{}{"k": "other"})
+			}
+		}
+		o["pdi"] = map[string]interface{}{"ok": els}
+	}
+	res, err := p.OuterHeaderRemovalDescription()
+	o["decap"] = res == 0 && err == nil
+	far, err := p.FARID()
+	o["far"] = l1Acc(err, far)
+	var kids []*ie.IE
+	var gerr error
+	switch p.Type {
+	case ie.CreatePDR:
+		kids, gerr = p.CreatePDR()
+	case ie.UpdatePDR:
+		kids, gerr = p.UpdatePDR()
+	}
+	o["group_ok"] = gerr == nil
+	qs := []uint32{}
+	for _, x := range kids {
+		if x.Type == ie.QERID {
+			if q, e := x.QERID(); e == nil {
+				qs = append(qs, q)
+			}
+		}
+	}
+	o["qers"] = qs
+	return o
+}
+
+func l1SemFwd(ies []*ie.IE, err error) interface{} {
+	if err != nil {
+		return "err"
+	}
+	els := []interface{}{}
+	for _, x := range ies {
+		switch x.Type {
+		case ie.OuterHeaderCreation:
+			f, e := x.OuterHeaderCreation()
+			if e != nil {
+				els = append(els, map[string]interface{}{"k": "ohc", "v": "err"})
+			} else {
+				els = append(els, map[string]interface{}{"k": "ohc", "v": map[string]interface{}{"ok": []interface{}{f.TEID, l1V4(f.IPv4Address)}}})
+			}
+		case ie.DestinationInterface:
+			v, e := x.DestinationInterface()
+			els = append(els, map[string]interface{}{"k": "dst", "v": l1Acc(e, v)})
+		case ie.PFCPSMReqFlags:
+			v, e := x.PFCPSMReqFlags()
+			els = append(els, map[string]interface{}{"k": "sm", "v": l1Acc(e, v)})
+		default:
+			els = append(els, map[string]interface{}{"k": "other"})
+		}
+	}
+	return map[string]interface{}{"ok": els}
+}
+
+func l1SemFar(f *ie.IE) interface{} {
+	o := map[string]interface{}{}
+	id, err := f.FARID()
+	o["id"] = l1Acc(err, id)
+	act, err := f.ApplyAction()
+	if err != nil || len(act) == 0 {
+		o["action"] = "err"
+	} else {
+		o["action"] = map[string]interface{}{"ok": act[0]}
+	}
+	if f.Type == ie.CreateFAR {
+		fw, e := f.ForwardingParameters()
+		o["fwd_c"] = l1SemFwd(fw, e)
+		o["fwd_u"] = "err"
+	} else {
+		fw, e := f.UpdateForwardingParameters()
+		o["fwd_u"] = l1SemFwd(fw, e)
+		o["fwd_c"] = "err"
+	}
+	return o
+}
+
+func l1SemQer(q *ie.IE) interface{} {
+	o := map[string]interface{}{}
+	id, err := q.QERID()
+	o["id"] = l1Acc(err, id)
+	v8 := func(f func() (uint8, error)) uint8 { v, _ := f(); return v }
+	v64 := func(f func() (uint64, error)) uint64 { v, _ := f(); return v }
+	o["qfi"] = v8(q.QFI)
+	o["gul"] = v8(q.GateStatusUL)
+	o["gdl"] = v8(q.GateStatusDL)
+	o["mul"] = v64(q.MBRUL)
+	o["mdl"] = v64(q.MBRDL)
+	o["gbul"] = v64(q.GBRUL)
+	o["gbdl"] = v64(q.GBRDL)
+	return o
+}
+
+func l1Sem(raw []byte, t *l1Intern) (out interface{}) {
+	defer func() {
+		if r := recover(); r != nil {
+			out = map[string]interface{}{"t": "decoder-panic", "why": fmt.Sprint(r)}
+		}
+	}()
+	m, err := message.Parse(raw)
+	if err != nil {
+		return map[string]interface{}{"t": "other"}
+	}
+	o := map[string]interface{}{"seq": m.Sequence(), "hseid": m.SEID()}
+	optAcc := func(i *ie.IE, f func(*ie.IE) (interface{}, error)) interface{} {
+		if i == nil {
+			return nil
+		}
+		v, e := f(i)
+		return l1Acc(e, v)
+	}
+	nodeid := func(i *ie.IE) (interface{}, error) {
+		s, e := i.NodeID()
+		if e != nil {
+			return nil, e
+		}
+		return t.id("node:" + s), nil
+	}
+	fseid := func(i *ie.IE) (interface{}, error) {
+		f, e := i.FSEID()
+		if e != nil {
+			return nil, e
+		}
+		return []interface{}{f.SEID, l1V4(f.IPv4Address)}, nil
+	}
+	pdrs := func(l []*ie.IE) []interface{} {
+		r := []interface{}{}
+		for _, p := range l {
+			r = append(r, l1SemPdr(p, t))
+		}
+		return r
+	}
+	fars := func(l []*ie.IE) []interface{} {
+		r := []interface{}{}
+		for _, p := range l {
+			r = append(r, l1SemFar(p))
+		}
+		return r
+	}
+	qers := func(l []*ie.IE) []interface{} {
+		r := []interface{}{}
+		for _, p := range l {
+			r = append(r, l1SemQer(p))
+		}
+		return r
+	}
+	switch r := m.(type) {
+	case *message.HeartbeatRequest:
+		o["t"] = "hb"
+	case *message.AssociationSetupRequest:
+		o["t"] = "setup"
+		o["nodeid"] = optAcc(r.NodeID, nodeid)
+		o["rts"] = optAcc(r.RecoveryTimeStamp, func(i *ie.IE) (interface{}, error) {
+			ts, e := i.RecoveryTimeStamp()
+			if e != nil {
+				return nil, e
+			}
+			return ts.Unix(), nil
+		})
+	case *message.AssociationReleaseRequest:
+		o["t"] = "release"
+	case *message.PFDManagementRequest:
+		o["t"] = "pfd"
+		apps := []interface{}{}
+		for _, a := range r.ApplicationIDsPFDs {
+			e := map[string]interface{}{}
+			id, err := a.ApplicationID()
+			e["id"] = l1Acc(err, t.id("app:"+id))
+			ctx, err := a.PFDContext()
+			if err != nil {
+				e["ctx"] = "err"
+			} else {
+				cs := []interface{}{}
+				for _, c := range ctx {
+					f, err := pfdContentsFields(c)
+					if err != nil {
+						cs = append(cs, "err")
+					} else {
+						cs = append(cs, map[string]interface{}{"ok": []interface{}{t.id("flow:" + f.FlowDescription), l1FlowOrEmpty(f.FlowDescription)}})
+					}
+				}
+				e["ctx"] = map[string]interface{}{"ok": cs}
+			}
+			apps = append(apps, e)
+		}
+		o["apps"] = apps
+	case *message.SessionEstablishmentRequest:
+		o["t"] = "est"
+		o["nodeid"] = optAcc(r.NodeID, nodeid)
+		o["cpfseid"] = optAcc(r.CPFSEID, fseid)
+		o["cp"], o["cf"], o["cq"] = pdrs(r.CreatePDR), fars(r.CreateFAR), qers(r.CreateQER)
+	case *message.SessionModificationRequest:
+		o["t"] = "mod"
+		o["cpfseid"] = optAcc(r.CPFSEID, fseid)
+		o["cp"], o["cf"], o["cq"] = pdrs(r.CreatePDR), fars(r.CreateFAR), qers(r.CreateQER)
+		o["up"], o["uf"], o["uq"] = pdrs(r.UpdatePDR), fars(r.UpdateFAR), qers(r.UpdateQER)
+		rm := func(l []*ie.IE, f func(*ie.IE) (uint32, error)) []interface{} {
+			out := []interface{}{}
+			for _, x := range l {
+				v, e := f(x)
+				out = append(out, l1Acc(e, v))
+			}
+			return out
+		}
+		o["rp"] = rm(r.RemovePDR, func(i *ie.IE) (uint32, error) { v, e := i.PDRID(); return uint32(v), e })
+		o["rf"] = rm(r.RemoveFAR, func(i *ie.IE) (uint32, error) { return i.FARID() })
+		o["rq"] = rm(r.RemoveQER, func(i *ie.IE) (uint32, error) { return i.QERID() })
+	case *message.SessionDeletionRequest:
+		o["t"] = "del"
+	case *message.SessionReportResponse:
+		o["t"] = "srrsp"
+		o["cause"] = optAcc(r.Cause, func(i *ie.IE) (interface{}, error) { c, e := i.Cause(); return c, e })
+	case *message.HeartbeatResponse, *message.AssociationSetupResponse:
+		o["t"] = "response"
+	default:
+		o["t"] = "other"
+	}
+	return o
+}
+
+func l1FlowOrEmpty(text string) interface{} {
+	if text == "" {
+		return "err"
+	}
+	return l1Flow(text)
+}
